@@ -3,6 +3,7 @@
                                 filter_actual_layers, coverage gates), WMSLayer / WMSGroupLayer
      mapproxy/layer.py          LimitedLayer (coverage attribute, get_info gate)
      mapproxy/service/tile.py   TileServer.authorize_tile_layer, TileLayer.render
+     mapproxy/util/coverage.py  load_limited_to_all (the geometries that apply; their intersection is abstract)
      mapproxy/service/wmts.py   WMTSServer.authorize_tile_layer, featureinfo
      mapproxy/service/kml.py    KMLServer.authorize_tile_layer
      mapproxy/image/merge.py    LayerMerger.merge, read pixel by pixel (every Pillow operator used there is
@@ -255,22 +256,26 @@ Definition wms_featureinfo (tree : list wlayer) (qlayers layers : list Z) (cb : 
 
 (* ================================================================== tile services *)
 
-Inductive tauth := T_401 | T_403 | T_ok (lim : option Z).
+(* lims: the geometries the request is limited to, all of them apply (util/coverage.py load_limited_to_all:
+   the coverage is their intersection); [] = no limit *)
+Inductive tauth := T_401 | T_403 | T_ok (lims : list Z).
+
+Definition opt_list (o : option Z) : list Z := match o with Some g => [g] | None => [] end.
 
 (* TileServer / KMLServer.authorize_tile_layer (key = Ft_tile) and WMTSServer.authorize_tile_layer
-   (key = Ft_tile or Ft_fi).  A layer entry's own limited_to hides the global one. *)
+   (key = Ft_tile or Ft_fi): the limited_to of the layer entry and the global one are loaded together. *)
 Definition authorize_tile (key : feat) (lname : Z) (cb : option cbres) : tauth :=
   match cb with
-  | None => T_ok None
+  | None => T_ok []
   | Some r =>
     match r_kind r with
     | A_unauth => T_401
-    | A_full => T_ok None
+    | A_full => T_ok []
     | A_partial =>
       match assoc lname (r_layers r) with
       | Some p =>
         if is_True (flag key p)
-        then T_ok (match p_lim p with Some g => Some g | None => r_lim r end)
+        then T_ok (opt_list (p_lim p) ++ opt_list (r_lim r))
         else T_403
       | None => T_403
       end
@@ -278,17 +283,18 @@ Definition authorize_tile (key : feat) (lname : Z) (cb : option cbres) : tauth :
     end
   end.
 
-Inductive tile_out := TO_401 | TO_403 | TO_empty | TO_full | TO_masked (g : Z).
+Inductive tile_out := TO_401 | TO_403 | TO_empty | TO_full | TO_masked (gs : list Z).
 
-(* TileLayer.render: cont g / inter g = coverage.contains / intersects (tile bbox) *)
-Definition tile_render (lname : Z) (cb : option cbres) (cont inter : Z -> bool) : tile_out :=
+(* TileLayer.render: cont gs / inter gs = coverage.contains / intersects (tile bbox) for the coverage that is
+   the intersection of the geometries gs *)
+Definition tile_render (lname : Z) (cb : option cbres) (cont inter : list Z -> bool) : tile_out :=
   match authorize_tile Ft_tile lname cb with
   | T_401 => TO_401
   | T_403 => TO_403
-  | T_ok None => TO_full
-  | T_ok (Some g) =>
-    if cont g then TO_full
-    else if inter g then TO_masked g
+  | T_ok [] => TO_full
+  | T_ok gs =>
+    if cont gs then TO_full
+    else if inter gs then TO_masked gs
     else TO_empty
   end.
 
@@ -298,15 +304,15 @@ Definition tile_loads (o : tile_out) : bool :=
 
 Inductive fi_out := FI_401 | FI_403 | FI_notqueryable | FI_ok (srcs : list Z).
 
-(* WMTSServer.featureinfo *)
-Definition wmts_featureinfo (lname : Z) (infos : list Z) (cb : option cbres) (pt_in : Z -> bool) : fi_out :=
+(* WMTSServer.featureinfo: pt_in gs = the intersection of the geometries gs contains the query coordinate *)
+Definition wmts_featureinfo (lname : Z) (infos : list Z) (cb : option cbres) (pt_in : list Z -> bool) : fi_out :=
   match authorize_tile Ft_fi lname cb with
   | T_401 => FI_401
   | T_403 => FI_403
-  | T_ok lim =>
+  | T_ok lims =>
     match infos with
     | [] => FI_notqueryable
-    | _ => if match lim with Some g => negb (pt_in g) | None => false end then FI_ok [] else FI_ok infos
+    | _ => if match lims with [] => false | _ => negb (pt_in lims) end then FI_ok [] else FI_ok infos
     end
   end.
 
@@ -517,7 +523,7 @@ Definition wms_out_eqb (a b : wms_out) : bool :=
 Definition tile_out_eqb (a b : tile_out) : bool :=
   match a, b with
   | TO_401, TO_401 | TO_403, TO_403 | TO_empty, TO_empty | TO_full, TO_full => true
-  | TO_masked g, TO_masked h => g =? h
+  | TO_masked g, TO_masked h => list_eqb Z.eqb g h
   | _, _ => false
   end.
 
